@@ -51,6 +51,9 @@ Tests == [
     \* symbol had been pinned to a constant - by ret_b itself never
     eq_a           |-> [writes |-> [subst |-> 1], expects |-> << >>],
     ret_b          |-> [writes |-> << >>,          expects |-> [subst |-> 1]],
+    \* cond_b fails for sym = 64, whatever ran before: what eq_a's paths assumed about sym (sym # 64 on its fall-through
+    \* path) is not a fact about the post-setUp state
+    cond_b         |-> [writes |-> << >>,          expects |-> [subst |-> 2]],
     \* hash_a computes keccak(5); hash_b asserts keccak(x) = keccak(5) => x = 5, provable only with the injectivity axioms
     \* that come with the registration of both hashes on its own paths
     hash_a         |-> [writes |-> [sha3 |-> 1],  expects |-> << >>],
